@@ -157,7 +157,9 @@ Proof.
   intros Ps Hn Hf. unfold step, bind. rewrite presplit_pending, Ps.
   rewrite (inert_rollback _ _ _ (resolved_inert got)).
   assert (Rb : rollback (pending got) t sp = Ok sp).
-  { unfold rollback. rewrite pending_waiting. unfold pending at 1. rewrite MS_cur.
+  { (* adapted to ParserModel after repair e36c9e6 (rollback no longer matches on cur_ctx) *)
+    unfold rollback. rewrite pending_waiting. cbv zeta.
+    replace (cur_ctx (pending got)) with (Some cur) by (symmetry; unfold pending; apply MS_cur).
     rewrite pending_flag_arg, Opt. cbn [andb].
     destruct Hf as [Hf|[-> _]]; [now rewrite Hf|].
     destruct (ctx_has_flag (Some cur) (fst (t, []))); reflexivity. }
